@@ -1,0 +1,110 @@
+//go:build verif
+
+package x509
+
+import "encoding/asn1"
+
+// Access to the unexported byte-level decoders of this package for the
+// verification harness (/verif, property C18).  Nothing here changes behaviour.
+
+// VerifBer2der calls ber2der.
+func VerifBer2der(ber []byte) ([]byte, error) { return ber2der(ber) }
+
+// VerifUnpad calls unpad on a copy of data.
+func VerifUnpad(data []byte, blocklen int) ([]byte, error) {
+	return unpad(append([]byte{}, data...), blocklen)
+}
+
+// VerifPad calls pad on a copy of data.
+func VerifPad(data []byte, blocklen int) ([]byte, error) {
+	return pad(append([]byte{}, data...), blocklen)
+}
+
+// VerifMaxBERDepth is the nesting limit of ber2der.
+const VerifMaxBERDepth = maxBERDepth
+
+// ---- PKCS#7 signed data: the decoded pieces Verify works on (property C17) ----
+
+// VerifP7Attr is one signed attribute: type, the bytes of its SET OF value, and those
+// bytes decoded as an OCTET STRING (OctetsOK false if they do not decode as one).
+type VerifP7Attr struct {
+	Type     []int
+	Value    []byte
+	Octets   []byte
+	OctetsOK bool
+}
+
+// VerifP7Signer is one signerInfo of a parsed PKCS7.
+type VerifP7Signer struct {
+	IssuerRaw  []byte
+	Serial     string // decimal
+	DigestAlg  []int
+	EncAlg     []int
+	Attrs      []VerifP7Attr
+	Marshalled []byte // marshalAttributes(AuthenticatedAttributes)
+	MarshalOK  bool
+	Signature  []byte
+}
+
+// VerifP7Signers returns the signer infos of p7.
+func VerifP7Signers(p7 *PKCS7) []VerifP7Signer {
+	var out []VerifP7Signer
+	for _, s := range p7.Signers {
+		v := VerifP7Signer{IssuerRaw: s.IssuerAndSerialNumber.IssuerName.FullBytes, DigestAlg: s.DigestAlgorithm.Algorithm,
+			EncAlg: s.DigestEncryptionAlgorithm.Algorithm, Signature: s.EncryptedDigest}
+		if s.IssuerAndSerialNumber.SerialNumber != nil {
+			v.Serial = s.IssuerAndSerialNumber.SerialNumber.String()
+		}
+		for _, a := range s.AuthenticatedAttributes {
+			at := VerifP7Attr{Type: a.Type, Value: a.Value.Bytes}
+			var d []byte
+			if _, err := asn1.Unmarshal(a.Value.Bytes, &d); err == nil {
+				at.Octets, at.OctetsOK = d, true
+			}
+			v.Attrs = append(v.Attrs, at)
+		}
+		if m, err := marshalAttributes(s.AuthenticatedAttributes); err == nil {
+			v.Marshalled, v.MarshalOK = m, true
+		}
+		out = append(out, v)
+	}
+	return out
+}
+
+// VerifP7HashByName evaluates the package's Hash of that name ("SHA1", "SHA256", "SM3") on data.
+func VerifP7HashByName(name string, data []byte) []byte {
+	var h Hash
+	switch name {
+	case "SHA1":
+		h = SHA1
+	case "SHA256":
+		h = SHA256
+	case "SM3":
+		h = SM3
+	default:
+		return nil
+	}
+	w := h.New()
+	w.Write(data)
+	return w.Sum(nil)
+}
+
+// VerifP7CheckSignature is cert.CheckSignature(algo, signed, sig) == nil for the named algorithm.
+func VerifP7CheckSignature(cert *Certificate, algo string, signed, sig []byte) bool {
+	var a SignatureAlgorithm
+	switch algo {
+	case "SM2WithSM3":
+		a = SM2WithSM3
+	case "SM2WithSHA256":
+		a = SM2WithSHA256
+	case "SM2WithSHA1":
+		a = SM2WithSHA1
+	case "SHA1WithRSA":
+		a = SHA1WithRSA
+	case "SHA256WithRSA":
+		a = SHA256WithRSA
+	default:
+		return false
+	}
+	return cert.CheckSignature(a, signed, sig) == nil
+}
